@@ -74,11 +74,11 @@ Classes(t, f) ==
 
 SealedPl(t) == [f \in Fields(t) |-> IF f = "iss" THEN "H" ELSE IF f = "zzz" THEN "absent" ELSE "ok"]
 
-Content(w) == [hdr |-> w.hdr, tag |-> w.tag, extra |-> w.extra, pl |-> w.pl]
+Content(w) == [hdr |-> w.hdr, tag |-> w.tag, extra |-> w.extra, plk |-> w.plk, pl |-> w.pl]
 AlgOf(who) == IF who = "H" THEN "alg1" ELSE MAlg
 
 Sealed(t) ==
-  LET w0 == [type |-> t, outer |-> "list2", hdr |-> "alg1", tag |-> t, extra |-> "none", pl |-> SealedPl(t),
+  LET w0 == [type |-> t, outer |-> "list2", hdr |-> "alg1", tag |-> t, extra |-> "none", plk |-> "map", pl |-> SealedPl(t),
              sig |-> [q |-> "none", by |-> "H", over |-> "none"]]
   IN [w0 EXCEPT !.sig = [q |-> "valid", by |-> "H", over |-> Content(w0)]]
 
@@ -99,6 +99,7 @@ FieldOK(t, f, c) ==
   \/ c = "null" /\ f = "exp"
 WellFormed(w, t) ==
   /\ w.tag = t /\ w.extra = "none" /\ w.hdr \notin {"absent", "notbytes"}
+  /\ w.plk = "map"                      \* what sits under the tag is a payload (a map of fields), not some other value
   /\ \A f \in Fields(t) : FieldOK(t, f, w.pl[f])
 
 ---------------------------------------------------------------------------
@@ -119,6 +120,7 @@ Decode(w, decoder) ==
   ELSE IF w.hdr = "notbytes" THEN reject("inspect:hdr")
   ELSE IF w.tag = "nonucan" THEN reject("inspect:key")
   ELSE IF w.tag # t THEN reject("tag")
+  ELSE IF w.plk = "notmap" THEN reject("iss:lookup")          \* no field can be looked up in a string / int / list / ...
   ELSE IF pl.iss = "absent" THEN reject("iss:lookup")
   ELSE IF t \notin {"dlg", "inv"} \/ w.type # t THEN reject("schema")      \* payload of the other type does not bind
   ELSE IF \E f \in Fields(t) : \/ pl[f] = "wrongkind"
@@ -170,13 +172,15 @@ SetExtra == Can /\ \E e \in {"third", "twotags"} : e # w.extra
               /\ w' = [w EXCEPT !.extra = e] /\ ops' = Append(ops, Op("extra", e, "")) /\ UNCHANGED res
 SetOuter == Can /\ \E o \in {"list3", "list1", "map"} : o # w.outer
               /\ w' = [w EXCEPT !.outer = o] /\ ops' = Append(ops, Op("outer", o, "")) /\ UNCHANGED res
+SetPlKind == Can /\ w.plk = "map"
+              /\ w' = [w EXCEPT !.plk = "notmap"] /\ ops' = Append(ops, Op("plkind", "notmap", "")) /\ UNCHANGED res
 SetSig   == Can /\ \E q \in {"garbage", "empty", "truncated", "string", "rawrs", "dersmall", "zeros"} : q # w.sig.q
               /\ w' = [w EXCEPT !.sig.q = q] /\ ops' = Append(ops, Op("sig", q, "")) /\ UNCHANGED res
 
 DoDecode == res = Idle /\ \E d \in Decoders :
               res' = Decode(w, d) @@ [decoder |-> d] /\ UNCHANGED <<w, ops>>
 
-Next == SetField \/ SetIss \/ Resign \/ SetHdr \/ SetTag \/ SetExtra \/ SetOuter \/ SetSig \/ DoDecode
+Next == SetField \/ SetIss \/ Resign \/ SetHdr \/ SetTag \/ SetExtra \/ SetOuter \/ SetPlKind \/ SetSig \/ DoDecode
 Spec == Init /\ [][Next]_vars
 
 Done == res # Idle
